@@ -80,14 +80,18 @@ func (t *Txn) Commit() error {
 
 	// TODO: support txn crush recovery (txnEnt and txnFin)
 
+	// all writes of a txn go to the wal as one batch,
+	// the memtable is rotated after the batch and never in the middle of it
+	entries := make([]types.Entry, 0, len(t.pendingWrites))
 	for _, v := range t.pendingWrites {
-		t.db.rawset(types.Entry{
+		entries = append(entries, types.Entry{
 			Key:       types.KeyWithTs(v.Key, commitTs),
 			Value:     v.Value,
 			Tombstone: v.Tombstone,
 			Version:   int64(commitTs),
 		})
 	}
+	t.db.rawset(entries...)
 
 	orc.doneCommit(commitTs)
 
